@@ -33,6 +33,7 @@ import (
 	"testing/synctest"
 	"time"
 
+	"github.com/twmb/franz-go/pkg/kmsg"
 	"pgregory.net/rapid"
 	"verif.local/vfkit"
 
@@ -95,7 +96,9 @@ func (g *c12GateStore) arm(a *c12GateArm) { g.mu.Lock(); g.armed = a; g.mu.Unloc
 func (g *c12GateStore) wasHit(a *c12GateArm) bool { g.mu.Lock(); defer g.mu.Unlock(); return a.hit }
 
 func (g *c12GateStore) Metadata(ctx context.Context, topics []string) (*metadata.ClusterMetadata, error) {
-	_ = g.gate(ctx, "Metadata")
+	if err := g.gate(ctx, "Metadata"); err != nil {
+		return nil, err
+	}
 	return g.InMemoryStore.Metadata(ctx, topics)
 }
 
@@ -342,6 +345,57 @@ func (r *c12Run) restart() bool {
 	return true
 }
 
+// metaFaulted runs one request whose first store.Metadata call fails with a transient error.
+func (r *c12Run) metaFaulted(f func()) {
+	arm := &c12GateArm{label: "Metadata", nth: 1, fail: true}
+	r.gs.arm(arm)
+	r.ctx = context.WithValue(context.Background(), c12WorkerKey{}, "M")
+	f()
+	r.ctx = context.Background()
+	r.gs.arm(nil)
+	if r.gs.wasHit(arm) {
+		r.class("fault/metadata-lookup-failed-during-sync")
+		r.res.feats["metadata-fault"] = true
+	}
+}
+
+// doLeaveV4 sends the leave the way every real client has to (the broker advertises LeaveGroup
+// v4 only): the member id travels in Members[], the request goes through kmsg's own v4 wire
+// encoding and decoding. No statement of C12/C13/C14 obliges the coordinator to honour a leave,
+// so the outcome is only counted (and the model follows whatever the reply says).
+func (r *c12Run) doLeaveV4(cl *c12Client) {
+	pre := c12Peek(r.c)
+	r.observe(pre)
+	out := kmsg.NewPtrLeaveGroupRequest()
+	out.Version = 4
+	out.Group = c12Group
+	m := kmsg.NewLeaveGroupRequestMember()
+	m.MemberID = cl.id
+	out.Members = append(out.Members, m)
+	req := kmsg.NewPtrLeaveGroupRequest()
+	req.Version = 4
+	if err := req.ReadFrom(out.AppendTo(nil)); err != nil {
+		r.class("leave-v4/encode-decode-error")
+		return
+	}
+	cl.lastReq = time.Now()
+	r.markLoaded()
+	resp := r.c.LeaveGroup(r.ctx, req)
+	post := c12Peek(r.c)
+	if resp == nil {
+		return
+	}
+	_, wasMember := pre.members[cl.id]
+	r.tr("leave(v4 Members[]) %s ph=%s member=%v -> code=%d", c12Short(cl.id), c12Phase(pre.phase), wasMember, resp.ErrorCode)
+	r.class(fmt.Sprintf("leave-v4/member-%v/code%d", wasMember, resp.ErrorCode))
+	if _, still := post.members[cl.id]; wasMember && !still {
+		cl.left = true
+		r.dirty = false
+		delete(r.joined, cl.id)
+	}
+	r.observe(post)
+}
+
 // writeFaulted runs one request whose first PutConsumerGroup fails with a transient error.
 func (r *c12Run) writeFaulted(f func()) {
 	arm := &c12GateArm{label: "PutConsumerGroup", nth: 1, fail: true}
@@ -492,7 +546,12 @@ func TestVF_C12_Interleave(t *testing.T) {
 	rapid.Check(t, func(rt *rapid.T) {
 		env := c12DrawInterleaveEnv(rt)
 		st.Eval()
-		res := c12Execute(t, env, c12Opts{excludeStableRejoin: exclude, focus: focus})
+		res := c12Execute(t, env, c12Opts{excludeStableRejoin: exclude, excludeMetaFault: vfkit.Known(c12FindingMetaErr), excludeGrowth: vfkit.Known(c12FindingGrowth), focus: focus})
+		for id, n := range res.excl {
+			for i := 0; i < n; i++ {
+				st.ExcludedCase(id)
+			}
+		}
 		for k, v := range res.classes {
 			st.ClassN(k, v)
 		}
